@@ -8,7 +8,7 @@ Every statement is for all byte strings (no length bound) and for EVERY text-to-
 `getaddrinfo` behind `Ip::Address::GetHostByName`), unless it names the reference resolver `IpText.numeric`.
 
 The property has three parts. (1) Incremental: proved in full (`definite_answer_stable`, `prefix_answers_like_full`,
-`prefix_monotone`, `prefix_of_rejected`, `every_segmentation_same_answer`). (2) Faithful on well-formed headers: proved against a reference encoder for v1
+`prefix_monotone`, `prefix_of_rejected`, `every_segmentation_same_answer`, `waiting_is_bounded`). (2) Faithful on well-formed headers: proved against a reference encoder for v1
 (`v1_tcp_roundtrip`, `v1_unknown_roundtrip`) and v2 (`v2_inet_roundtrip`, `v2_inet6_roundtrip`, `v2_unspec_roundtrip`,
 `v2_local_roundtrip`), with the exact consumed length (`consumed_exactly_the_header`); two classes of well-formed headers
 are NOT parsed faithfully by the real code: `v1_tcp6_mapped_counterexample`, `v2_unix_counterexample`,
@@ -19,6 +19,7 @@ family mismatches, wrong v2 version/command/family/transport, short v2 address b
 -/
 import SquidModel.Proxyp.Shape
 import SquidModel.Proxyp.Short
+import SquidModel.Proxyp.Bounded
 import SquidModel.Proxyp.IpText
 
 namespace SquidModel.C38
@@ -80,6 +81,14 @@ theorem every_segmentation_same_answer (ipOf : IpOf) (segs : List Bytes) :
     feed ipOf [] segs = attempt ipOf segs.flatten := by
   have := feed_eq ipOf [] segs
   simpa using this
+
+/-- "Need more" is bounded: the parser waits only while fewer than 12 octets without a signature, fewer than 107 octets
+of a v1 line, or fewer than 12 + 4 + 65536 octets of a v2 frame are buffered; beyond that every answer is definite. -/
+theorem waiting_is_bounded (ipOf : IpOf) (buf : Bytes) (h : parse ipOf buf = .more) :
+    buf.length < magic2.length + 4 + 65536 ∧
+    (magic1.isPrefixOf buf = true → buf.length < maxHeaderLength) ∧
+    (magic1.isPrefixOf buf = false → magic2.isPrefixOf buf = false → buf.length < magic2.length) :=
+  more_bounded h
 
 /-- The parser has no undefined outcome (the port conversion `Tokenizer::int64` cannot overflow here). -/
 theorem parse_never_undefined (ipOf : IpOf) (buf : Bytes) : parse ipOf buf ≠ .ub :=
